@@ -147,6 +147,17 @@ fn documents(thorough: bool) -> Vec<String> {
         docs.push(format!("{{\"x\": {}}}", s));
         docs.push(format!("{{\"x\": {{{}: {}}}}}", s, s));
     }
+    // sizes small alphabets never reach: wide records, long lists, deep nesting, long keys and strings
+    for n in if thorough { vec![9usize, 17, 33, 65, 257, 1025] } else { vec![17, 65, 257] } {
+        let rec: Vec<String> = (0..n).map(|i| format!("\"k{}\": {}", (i * 7 + 3) % (n + 1), if i % 3 == 0 { "null".to_string() } else { format!("{}.5", i) })).collect();
+        docs.push(format!("{{\"x\": {{{}}}}}", rec.join(", ")));
+        let list: Vec<String> = (0..n * 4).map(|i| format!("{}", (i as f64) * 0.1 - 7.0)).collect();
+        docs.push(format!("{{\"x\": [{}]}}", list.join(", ")));
+        let depth = n.min(100);
+        docs.push(format!("{{\"x\": {}1{}}}", "[".repeat(depth), "]".repeat(depth)));
+        docs.push(format!("{{\"x\": {}1{}}}", "{\"a\": ".repeat(depth), "}".repeat(depth)));
+        docs.push(format!("{{\"x\": {{\"{}\": \"{}\"}}}}", "key ".repeat(n), "value \u{e9} ".repeat(n)));
+    }
     // raw (unescaped) invisible and special code points inside strings and keys, at the start, in the
     // middle and at the end - and keys that differ only by such a character
     for cp in ['\u{feff}', '\u{200b}', '\u{a0}', '\u{2028}', '\u{2029}', '\u{85}', '\u{fffe}', '\u{fffd}', '\u{ad}', '\u{202e}', '\u{7f}', '\u{e000}', '\u{10ffff}'] {
